@@ -190,7 +190,7 @@ let rec goval_of_sx (x : sx) : E.goval =
            fields)
   | L [ A "ptr"; v ] -> E.GPtr (goval_of_sx v)
   | L (A "nilptr" :: _) -> E.GNilPtr
-  | L (A ("chan" | "func" | "complex" | "array2" | "imap") :: _) -> E.GOther
+  | L (A ("chan" | "func" | "nilchan" | "nilfunc" | "complex" | "array2" | "imap") :: _) -> E.GOther
   | _ -> failwith "unknown data value"
 
 and kv_of_sx = function
@@ -241,7 +241,7 @@ let data_of_sx (x : sx) : (E.bytes * E.goval) list =
 
 let fnid_of = function
   | "id" -> E.F_id | "const" -> E.F_const | "const2" -> E.F_const2 | "echo" -> E.F_echo
-  | "args" -> E.F_args | "nargs" -> E.F_nargs | "not" -> E.F_not
+  | "args" -> E.F_args | "nargs" -> E.F_nargs | "not" -> E.F_not | "revip" -> E.F_revip
   | s -> failwith ("fnid " ^ s)
 
 let type_of_short = function
@@ -258,6 +258,7 @@ let op_of_sx (x : sx) : E.op option =
   | L (A "evalstr" :: A s :: rest) -> Some (E.OpEvalStr (b s, dat rest))
   | L (A "evalfile" :: A p :: rest) -> Some (E.OpEvalFile (b p, dat rest))
   | L [ A "reg"; A ty; A n; A f ] -> Some (E.OpReg (bytes_of_string (type_of_short ty), b n, fnid_of f))
+  | L [ A "configure"; A d; A e; A p; A dbg ] -> Some (E.OpConfigure (b d, b e, b p, dbg = "1"))
   | _ -> None
 
 let show_err (e : E.terr) =
